@@ -801,6 +801,26 @@ def fam_faults(rng, thorough=False):
         steps.append({"op": "wait_close", "ep": 0, "n": 1})
         out.append({"name": "faults/idle_%s" % kind, "conf": conf(idle_ms=idle, idle_silent=[[0, 1]], idle_active=[[0, 2]]),
                     "endpoints": [{"kind": kind}], "steps": steps})
+    # a silent peer while the node itself keeps writing to it (a message every idle/3 for 4.5 s, far beyond the upper tolerance of
+    # the expiry clause): what the node sends is not something it received - the connection is closed after the idle timeout
+    # all the same; a second, active peer (server) stays
+    for kind in ["tcp_server", "tcp_client"]:
+        t = Tags(76500)
+        idle = 300
+        if kind == "tcp_server":
+            steps = [{"op": "peer_connect", "ep": 0, "peer": 1}, feed(0, "valid", t.next(), peer=1), {"op": "wait_open", "ep": 0, "n": 1},
+                     {"op": "peer_connect", "ep": 0, "peer": 2}, feed(0, "valid", t.next(), peer=2), {"op": "wait_open", "ep": 0, "n": 2}]
+        else:
+            steps = [{"op": "wait_open", "ep": 0, "n": 1}]
+        for j in range(45):
+            steps.append(write(1, "MsgAll", t.next()))
+            steps.append({"op": "sleep", "ms": idle // 3})
+            if kind == "tcp_server" and j < 14:
+                steps.append(feed(0, "valid", t.next(), peer=2))
+        steps.append({"op": "wait_close", "ep": 0, "n": 1})
+        out.append({"name": "faults/idle_while_the_node_keeps_writing_%s" % kind,
+                    "conf": conf(idle_ms=idle, reconnect_ms=100, idle_silent=[[0, 1]], idle_active=[[0, 2]] if kind == "tcp_server" else []),
+                    "endpoints": [{"kind": kind}], "steps": steps})
     return out
 
 
@@ -834,6 +854,19 @@ def fam_auto(rng, n, thorough=False):
         steps.append({"op": "sleep", "ms": 1000})
     steps.append({"op": "quiesce", "ms": 1000})
     out.append({"name": "auto/sr_across_cleaner_tick", "conf": conf(sr_enable=True), "endpoints": customs(1), "steps": steps})
+    # the same (system, component) behind two channels of ONE endpoint (two peers of a server, equal ids - two vehicles with
+    # factory settings, or a vehicle that connects a second time): each channel's first ArduPilot heartbeat is a first one
+    # (judged on the stream-requested events, which carry the channel); a second heartbeat on either triggers nothing
+    for kind in ["tcp_server", "udp_server"]:
+        t = Tags(89300)
+        steps = [{"op": "peer_connect", "ep": 0, "peer": 1}, feed(0, "hb", t.next(), peer=1, sys=2, comp=1, autopilot=3),
+                 {"op": "wait_open", "ep": 0, "n": 1}, {"op": "sleep", "ms": 150},
+                 {"op": "peer_connect", "ep": 0, "peer": 2}, feed(0, "hb", t.next(), peer=2, sys=2, comp=1, autopilot=3),
+                 {"op": "wait_open", "ep": 0, "n": 2}, {"op": "sleep", "ms": 150},
+                 feed(0, "hb", t.next(), peer=1, sys=2, comp=1, autopilot=3), feed(0, "hb", t.next(), peer=2, sys=2, comp=1, autopilot=3),
+                 feed(0, "hb", t.next(), peer=2, sys=3, comp=1, autopilot=3), {"op": "quiesce", "ms": 600}]
+        out.append({"name": "auto/sr_same_ids_on_two_channels_of_a_%s" % kind, "conf": conf(sr_enable=True), "endpoints": [{"kind": kind}],
+                    "steps": steps})
     # renewal: "not repeated within 30 seconds" from both sides - senders A and B on one channel over 63 s; a burst is due
     # for A at 0.1, 31.5 and 62.5 s, for B at 20 and 52 s, and for none of A at 10 / 25 / 45 s, B at 33 s (one long scenario)
     t = Tags(89500)
